@@ -273,6 +273,7 @@ type delivery struct {
 	shJSON    []byte
 	hasSh     bool
 	neighbour bool // another hand was started in the same process; no operation on this hand
+	query     bool // read-only questions were put to the live game object; no operation on this hand
 	hopMut    bool // backend modified the state handed to it
 	restart   bool // primary was rebuilt from JSON for this op
 }
@@ -350,10 +351,24 @@ func (s *server) state() *pokerface.GameState { return s.prev }
 // the trace replays exactly.
 func (s *server) deliver(st *sim.Step, idx int) *delivery {
 	d := &delivery{st: st, idx: idx, pre: s.prev, preJSON: s.durable}
-	if st.Actor == "server" && st.Op == "neighbour" {
+	if st.Actor == "server" && (st.Op == "neighbour" || st.Op == "query") {
 		// not an operation on this hand at all: only the oracles that
 		// compare states run on it
-		d.pan = s.neighbour(arg0(st) == 1)
+		if st.Op == "query" {
+			d.query = true
+			seat, mask := arg0(st), int64(0)
+			if len(st.Args) > 1 {
+				mask = st.Args[1]
+			}
+			if s.warm != nil {
+				d.pan = queryGame(s.warm, int(seat), mask)
+			}
+			if s.shadow != nil {
+				queryGame(s.shadow, int(seat), mask)
+			}
+		} else {
+			d.pan = s.neighbour(arg0(st) == 1)
+		}
 		d.neighbour = true
 		if s.warm != nil {
 			d.post = s.warm.GetState()
@@ -415,6 +430,56 @@ func (s *server) deliver(st *sim.Step, idx int) *delivery {
 		d.shJSON = marshalNorm(s.shadow.GetState())
 	}
 	return d
+}
+
+// queryGame puts read-only questions of the Game / Player interfaces to a
+// live game object, the way a table layer, a bot or a display does between
+// two operations. None of them may change anything.
+func queryGame(g pokerface.Game, seat int, mask int64) (pan string) {
+	defer func() {
+		if r := recover(); r != nil {
+			pan = fmt.Sprint(r)
+		}
+	}()
+	n := g.GetPlayerCount()
+	if n <= 0 {
+		return ""
+	}
+	p := g.Player(((seat % n) + n) % n)
+	if p == nil {
+		return ""
+	}
+	if mask&1 != 0 {
+		g.GetAvailableActions(p)
+	}
+	if mask&2 != 0 {
+		g.GetAllowedActions(p)
+	}
+	if mask&4 != 0 {
+		g.GetAlivePlayerCount()
+		g.GetMovablePlayerCount()
+		g.GetPlayers()
+		g.GetCurrentPlayer()
+	}
+	if mask&8 != 0 {
+		g.Dealer()
+		g.SmallBlind()
+		g.BigBlind()
+		g.GetEvent()
+	}
+	if mask&16 != 0 {
+		g.GetStateJSON()
+	}
+	if mask&32 != 0 {
+		p.State()
+		p.SeatIndex()
+		for _, a := range []string{"call", "raise", "check", "pass"} {
+			p.CheckAction(a)
+		}
+		p.CheckPosition("dealer")
+		p.CheckPosition("bb")
+	}
+	return ""
 }
 
 // probeClone rebuilds an independent game from the durable state (a cold
